@@ -99,6 +99,17 @@ def build_files(ctx, sc):
     return source, prior, seeds
 
 
+def pick(n, every, seed):
+    """seeded pseudo-random 1-in-`every` selection (a stride would alias with the structure of a TLC-enumerated product)"""
+    if every <= 1:
+        return True
+    M = (1 << 64) - 1
+    z = (n + seed * 0x9E3779B97F4A7C15 + 0x9E3779B97F4A7C15) & M
+    z = ((z ^ (z >> 30)) * 0xBF58476D1CE4E5B9) & M
+    z = ((z ^ (z >> 27)) * 0x94D049BB133111EB) & M
+    return (z ^ (z >> 31)) % every == 0
+
+
 def io_events(calls, out_path, arch_path):
     """per-path program order -> logical operations: writes/reads as (offset, length) using the lseek before them"""
     evs = []
@@ -187,9 +198,19 @@ def main():
             scens.append({"bulk": True, "src": [], "prior": [], "seeds": []})
         a.every = 1
         a.shards_bulk = True
+    nrel = nsel = 0
     for n, sc in enumerate(scens, 1):
-        if not sc.get("bulk") and ((n - 1) % a.every != 0 or ((n - 1) // a.every) % a.shards != a.shard):
-            continue
+        if a.mode == "stdin":
+            # this mode is about a seed arriving on stdin while the output itself is a seed: a sample of the layouts that have both
+            if not (sc.get("inplace", True) and sc.get("seeds") and sc.get("prior") and any(x > 0 for s_ in sc["seeds"] for x in s_)):
+                continue
+            nrel += 1
+        if not sc.get("bulk"):
+            if not pick(nrel if a.mode == "stdin" else n, a.every, a.seed):
+                continue
+            nsel += 1
+            if (nsel - 1) % a.shards != a.shard:
+                continue
         if sc.get("bulk"):
             npool = len(ctx.pool)
             # the source: most of the pool once each in random order, a tenth of the positions repeated
@@ -243,7 +264,7 @@ def main():
             args.append("--force-create")
         seed_found = []
         stdin_data = None
-        stdin_i = rnd.randrange(len(seeds)) if seeds and rnd.random() < 0.4 else -1
+        stdin_i = rnd.randrange(len(seeds)) if seeds and (rnd.random() < 0.4 or a.mode == "stdin") else -1
         for i, sb in enumerate(seeds):
             if i == stdin_i:
                 args += ["--seed", "-"]       # this seed arrives on stdin
@@ -340,7 +361,7 @@ def main():
             evs = [ev0] + [e for e in io_events(calls, out, ap_) if e["role"] == "output"] + [{"ev": "http", "first": x[0], "last": x[1], "cut": x[2]} for x in http] + [after_ev(code, msg), {"ev": "done"}]
             for e in evs:
                 w.write(json.dumps(e) + "\n")
-        elif a.mode == "plain":
+        elif a.mode in ("plain", "stdin"):
             if prior and kind != "new":
                 open(out, "wb").write(prior)
             code, msg, calls, http = run_once()
